@@ -102,7 +102,7 @@ type hookSem struct {
 	Events      []string
 	EventsKnown bool // every name of the helm.sh/hook annotation is a hook event
 	Weight      int
-	WeightKnown bool // no weight annotation (0) or a decimal integer
+	WeightKnown bool     // no weight annotation (0) or a decimal integer
 	Policies    []string // nil: no delete-policy annotation (the default applies); else every token
 	Log         []string
 }
@@ -155,7 +155,9 @@ func policyExpressible(pol []string) bool {
 
 // rawHk builds a raw ConfigMap hook: ev = the helm.sh/hook annotation; kv = pairs of ("w"|"d"|"l", value) for
 // the weight / delete-policy / output-log-policy annotations (absent when not given).
-func rawHk(name, ev string, kv ...string) eng.Hook { return rawHookOf(cm(name, "d:h", name), ev, kv...) }
+func rawHk(name, ev string, kv ...string) eng.Hook {
+	return rawHookOf(cm(name, "d:h", name), ev, kv...)
+}
 
 func rawHookOf(res eng.Res, ev string, kv ...string) eng.Hook {
 	f := map[string]string{}
@@ -262,21 +264,68 @@ func coqParsed(h eng.Hook) string {
 
 // c12CoqCase: mkC12 (engine case with hooks_of_docs) [parse observations of every install / upgrade]
 func c12CoqCase(h eng.History, o eng.Obs) string {
-	var parse []string
+	var parse, lets []string
 	terms := map[int]string{}
 	for i, s := range h.Steps {
 		if i >= len(o.Steps) || s.Op == nil || (s.Op.Kind != "install" && s.Op.Kind != "upgrade") {
 			continue
 		}
 		docs := c12Docs(o.Steps[i].RHooks, s.Op.Hooks)
-		terms[i] = "(hooks_of_docs " + eng.CoqResList(docs) + ")"
+		dn := fmt.Sprintf("d%d", i) // the documents are printed once per step and shared by the three comparisons
+		lets = append(lets, fmt.Sprintf("let %s := %s in", dn, eng.CoqResList(docs)))
+		terms[i] = "(hooks_of_docs " + dn + ")"
 		ps := make([]string, len(o.Steps[i].RHooks))
 		for k, x := range o.Steps[i].RHooks {
 			ps[k] = coqParsed(x)
 		}
-		parse = append(parse, fmt.Sprintf("(mkParseObs %s %s)", eng.CoqResList(docs), hx.CoqList(ps)))
+		parse = append(parse, fmt.Sprintf("(mkParseObs %s %s)", dn, hx.CoqList(ps)))
 	}
-	return fmt.Sprintf("mkC12 (%s)\n  %s", eng.CoqCaseWith(h, o, func(i int) string { return terms[i] }), hx.CoqList(parse))
+	var logs []string
+	for i, s := range h.Steps {
+		if i < len(o.Steps) && c12LogEligible(s.Op, o.Steps[i]) {
+			ev := c12Events[s.Op.Kind]
+			logs = append(logs, fmt.Sprintf("(mkLogObs d%d %s %s %s)", i, eventCtor12[ev[0]], eventCtor12[ev[1]], hx.CoqList(c12Levs(o.Steps[i]))))
+		}
+	}
+	return fmt.Sprintf("(%s\n mkC12 (%s)\n  %s\n  %s)", strings.Join(lets, "\n "), eng.CoqCaseWith(h, o, func(i int) string { return terms[i] }), hx.CoqList(parse), hx.CoqList(logs))
+}
+
+var eventCtor12 = map[string]string{"pre-install": "PreInstall", "post-install": "PostInstall", "pre-upgrade": "PreUpgrade", "post-upgrade": "PostUpgrade"}
+
+// c12LogEligible: the watch / log-fetch sequence of the step is compared with the model's (Engine/HookMeta.v op_levs):
+// a non-atomic install / upgrade with hooks enabled and no rejected request (the model of that sequence knows the two
+// events of the operation's own chart; a rejected DELETE would cut the final loop of execHook short)
+func c12LogEligible(op *eng.Op, so eng.StepObs) bool {
+	return op != nil && (op.Kind == "install" || op.Kind == "upgrade") && !op.Flags.Atomic && !op.Flags.NoHooks && !op.Flags.IsDry() &&
+		op.KFault == nil && op.WFail == nil && op.Crash == nil && so.Panic == ""
+}
+
+// c12Levs: the hook watches (with outcome) and the InterfaceLogs calls of a step, in the order they happened
+func c12Levs(so eng.StepObs) []string {
+	var out []string
+	k := 0
+	emit := func(upto int) {
+		for k < len(so.LogCalls) && so.LogCalls[k].At <= upto {
+			c := so.LogCalls[k]
+			switch {
+			case c.Output:
+				out = append(out, "LOut")
+			case c.Label != "":
+				out = append(out, "LFetch (LogByLabel "+hx.CoqStr(c.Label)+")")
+			default:
+				out = append(out, "LFetch (LogByField "+hx.CoqStr(c.Field)+")")
+			}
+			k++
+		}
+	}
+	for i, e := range so.Trace {
+		emit(i)
+		if e.Call == "hookwatch" {
+			out = append(out, fmt.Sprintf("LWatch %s %s", hx.CoqStr(e.Hook), hx.CoqBool(!e.Failed)))
+		}
+	}
+	emit(len(so.Trace))
+	return out
 }
 
 // weightFamily: a label for Class()
